@@ -585,6 +585,55 @@ def ser4(p, res, rd, wr):
     res.floor("SER-4", "writer/reader pairs", pairs, 28)
 
 
+def reader_fields(p, fn):
+    """receiver fields that read_from restores: stored fields, delegated sub-objects, fields read into directly"""
+    g = CFG(fn)
+    flow = Flow(fn, transparent=TRANSPARENT + ("iter_mut", "into_iter", "next", "as_mut_slice", "deref_mut", "index_mut", "get_mut", "ok_or_else", "ok_or", "unwrap", "expect", "as_mut", "values_mut", "entry", "or_insert_with"))
+    out = set()
+    for bi in g.reach:
+        for s in fn.blocks[bi]["s"]:
+            if s[0] == "A" and s[1][0] == 1 and len(s[1]) > 1 and s[1][1] == "*":
+                f = [x[2] for x in s[1][2:] if isinstance(x, list) and x[0] == "f"]
+                if f:
+                    out.add(f[0])
+        t = fn.blocks[bi]["t"]
+        if t and t["k"] == "Call":
+            n = (fn.callee_def(t) or {}).get("n")
+            if n in ("read_from", "read_exact", "read_i64_into", "read_u64_into", "copy_from_slice", "push", "insert", "extend_from_slice") and t["a"]:
+                for a in t["a"][:2]:
+                    for r in flow.op_roots(a):
+                        if r[0] == "param" and r[1] == 1 and r[2]:
+                            out.add(r[2][0])
+    return out
+
+
+def ser6(p, res, rd, wr, only=None):
+    """every receiver field that write_to serialises is restored by read_from"""
+    rk = {self_ty_key(k): v for k, v in rd.items()}
+    wk = {self_ty_key(k): v for k, v in wr.items()}
+    n = 0
+    for k in sorted(set(rk) & set(wk)):
+        if only and not only(k):
+            continue
+        (imr, fr), (imw, fw) = rk[k], wk[k]
+        if fr is None or fw is None:
+            continue
+        tw = io_trace(p, fw, "w")
+        if tw is None:
+            continue
+        wfields = {e[2] for t in tw for e in t if e[2] is not None}
+        rfields = reader_fields(p, fr)
+        n += 1
+        missing = sorted(wfields - rfields)
+        if missing:
+            res.bad("SER-6", k, "field-not-restored:%s" % ",".join(missing),
+                    "write_to of %s serialises field(s) %s but read_from never stores them back into the receiver: the round trip silently keeps the receiver's old value" % (k, missing),
+                    site=fr.where())
+        else:
+            res.ok("SER-6", {"type": k, "fields": sorted(wfields)})
+    return n
+
+
 def ser5(p, res, rd, wr):
     n = 0
     for table in (rd, wr):
@@ -619,6 +668,7 @@ def run(res, tier):
     res.rule("SER-2", "a tainted value is stored into n/cols/size/max_size/rows/cols_in/cols_out only when dominated by a comparison chain ending at the receiver's buffer/capacity")
     res.rule("SER-3", "no fallible step (stream read, delegated read, return Err) is reachable after a store to a receiver metadata field or after a delegated sub-object read")
     res.rule("SER-4", "write_to and read_from of a type perform the same ordered sequence of items")
+    res.rule("SER-6", "every receiver field serialised by write_to is stored back (or read into) by read_from")
     res.rule("SER-5", "write_to/read_from impls are not generic over a backend and call no backend code")
     res.assumptions = ["std::io::Read::read_exact / Write::write_all transfer exactly the given range", "byteorder read_*/write_* are inverse for equal width and endianness"]
     cfgs = ["avx-dev"] if tier == "quick" else ["avx-dev", "avx-nodbg"]
@@ -640,4 +690,6 @@ def run(res, tier):
                 check_reader(p, res, {"crate": f.crate}, f)
                 res.fn_count += 1
         ser4(p, res, rd, wr)
+        n6 = ser6(p, res, rd, wr)
+        res.floor("SER-6", "writer/reader pairs", n6, 28)
         ser5(p, res, rd, wr)
